@@ -38,7 +38,7 @@ def run(c):
         c._addcmd("tlc " + g.cmd)
         scn = c.scratch + "/scn.ndjson"
         _pki.write_lines(scn, cases)
-        c.run_driver(drv, ["-mode", "notify", "-scn", scn, "-out", trace, "-conc", 1500 if c.thorough else 150],
+        c.run_driver(drv, ["-mode", "notify", "-scn", scn, "-out", trace, "-conc", 1500 if c.thorough else 80],
                      timeout=2400)
     r = c.validate("TrustStoreTrace", "TrustStoreTrace.cfg", trace, timeout=2400)
     c.judge_trace(r, trace)
